@@ -307,5 +307,6 @@ EXPLANATION = (
     "rows and the handlers built are checked: RF in exactly one handler, shutil.move only with metadata/properties excluded, "
     "copy handler copies properties/metadata of the included kinds, move mode adds a count=1 metadata ringbuffer. R4: start() "
     "replays existing files to every handler. Does NOT decide byte identity or crash points inside shutil.move.")
+TECHNIQUE = ('Python ast; complete operation table of mirror_to_dest; CFG ordering; abstract execution of the constructor over all option rows; regular-language emptiness for tmp. names')
 ASSUMPTIONS = ["os.rename within the destination directory is atomic", "shutil.copy2/os.link produce a complete file before returning"]
 FILES = [MR, "python/digital_rf/list_drf.py", "python/digital_rf/ringbuffer.py"]
